@@ -633,6 +633,105 @@ theorem rankIn_lt_segCount (t0 : Rat) (bts : List Rat) (L : Nat) : ∀ (ts : Lis
     simp only [List.take_succ_cons, List.filter]
     cases inSeg t0 bts L x <;> simp <;> omega
 
+theorem lastLevel_eq_some (p : Nat → Bool) : ∀ (n L : Nat), L < n → p L = true →
+    (∀ L', L < L' → L' < n → p L' = false) → lastLevel p n = some L
+  | 0, L, h, _, _ => by omega
+  | n + 1, L, h, hp, hmax => by
+    unfold lastLevel
+    rcases Nat.lt_or_ge L n with hlt | hge
+    · have hn : p n = false := hmax n hlt (by omega)
+      rw [hn]
+      simp only [Bool.false_eq_true, if_false]
+      exact lastLevel_eq_some p n L hlt hp (fun L' h1 h2 => hmax L' h1 (by omega))
+    · have : L = n := by omega
+      subst this
+      rw [hp]
+      rfl
+
+/-- in a non-decreasing list the entries `<= t` are exactly the first `c` ones -/
+theorem sorted_count_split : ∀ (bts : List Rat), bts.Pairwise (· ≤ ·) → ∀ (t : Rat),
+    (∀ j (h : j < bts.length), j < (bts.filter (fun b => decide (b ≤ t))).length → bts[j] ≤ t) ∧
+    (∀ j (h : j < bts.length), (bts.filter (fun b => decide (b ≤ t))).length ≤ j → t < bts[j])
+  | [], _, t => by simp
+  | a :: l, hs, t => by
+    rw [List.pairwise_cons] at hs
+    obtain ⟨ih1, ih2⟩ := sorted_count_split l hs.2 t
+    by_cases hat : a ≤ t
+    · have hf : (a :: l).filter (fun b => decide (b ≤ t)) = a :: l.filter (fun b => decide (b ≤ t)) := by
+        simp [List.filter, hat]
+      rw [hf]
+      constructor
+      · intro j h hj
+        cases j with
+        | zero => simpa using hat
+        | succ j =>
+          simp only [List.getElem_cons_succ]
+          exact ih1 j (by simpa using h) (by simpa using hj)
+      · intro j h hj
+        cases j with
+        | zero => simp at hj
+        | succ j =>
+          simp only [List.getElem_cons_succ]
+          exact ih2 j (by simpa using h) (by simpa using hj)
+    · have hall : ∀ b ∈ l, ¬ b ≤ t := fun b hb hbt => hat (le_trans (hs.1 b hb) hbt)
+      have hf : (a :: l).filter (fun b => decide (b ≤ t)) = [] := by
+        rw [List.filter_eq_nil_iff]
+        intro b hb
+        rcases List.mem_cons.1 hb with rfl | hb
+        · simpa using hat
+        · simpa using hall b hb
+      rw [hf]
+      constructor
+      · intro j _ hj
+        simp at hj
+      · intro j h _
+        cases j with
+        | zero => simpa using not_le.1 hat
+        | succ j =>
+          simp only [List.getElem_cons_succ]
+          exact not_le.1 (hall _ (List.getElem_mem _))
+
+/-- **for branching times in non-decreasing order the level at `t` is the number of branching
+    times that have passed** (`<= t`) -/
+theorem levelAt_sorted (t0 : Rat) (bts : List Rat) (hs : bts.Pairwise (· ≤ ·)) (t : Rat) (ht : t0 ≤ t) :
+    levelAt t0 bts t = some (bts.filter (fun b => decide (b ≤ t))).length := by
+  obtain ⟨h1, h2⟩ := sorted_count_split bts hs t
+  have hc : (bts.filter (fun b => decide (b ≤ t))).length ≤ bts.length := List.length_filter_le _ _
+  generalize hcdef : (bts.filter (fun b => decide (b ≤ t))).length = c at *
+  unfold levelAt
+  apply lastLevel_eq_some
+  · omega
+  · unfold inSeg
+    have hlo : segLo t0 bts c ≤ t := by
+      cases c with
+      | zero => simpa [segLo] using ht
+      | succ c' =>
+        simp only [segLo]
+        have hlt : c' < bts.length := by omega
+        rw [List.getD_eq_getElem?_getD, List.getElem?_eq_getElem hlt]
+        exact h1 c' hlt (by omega)
+    rcases Nat.lt_or_ge c bts.length with hlt | hge
+    · rw [List.getElem?_eq_getElem hlt]
+      simp [hlo, h2 c hlt (le_refl _)]
+    · rw [List.getElem?_eq_none_iff.2 hge]
+      simp [hlo]
+  · intro L' hL hL'
+    cases L' with
+    | zero => omega
+    | succ j =>
+      have hj : j < bts.length := by omega
+      have hlo : segLo t0 bts (j + 1) = bts[j] := by
+        simp only [segLo]
+        rw [List.getD_eq_getElem?_getD, List.getElem?_eq_getElem hj]
+        rfl
+      have := h2 j hj (by omega)
+      unfold inSeg
+      have hd : decide (segLo t0 bts (j + 1) ≤ t) = false := by
+        rw [hlo]
+        simpa using this
+      rw [hd]
+      rfl
+
 /-! ## requests of the tree / flat policies -/
 
 theorem treeReqs_consistent (c : TreeCfg) (ts : List Rat) :
